@@ -286,9 +286,12 @@ impl Pattern {
                     .set_extended_globbing(self.enable_extended_globbing)
                     .set_case_insensitive(self.case_insensitive);
 
+                // N.B. Skip empty pieces: `d/"."*` splits into an empty piece (what follows the
+                // `/`) ahead of the quoted dot, and `''.*` starts with an empty quoted piece.
                 let subpattern_starts_with_dot = subpattern
                     .pieces
-                    .first()
+                    .iter()
+                    .find(|piece| !piece.as_str().is_empty())
                     .is_some_and(|piece| piece.as_str().starts_with('.'));
 
                 let allow_dot_files = !options.require_dot_in_pattern_to_match_dot_files
